@@ -503,9 +503,12 @@ class SimpleJSONRPCRequestHandler(SimpleXMLRPCRequestHandler):
                 raw_chunk = self.rfile.read(chunk_size)
                 if not raw_chunk:
                     break
-                chunks.append(utils.from_bytes(raw_chunk))
+                chunks.append(raw_chunk)
                 size_remaining -= len(raw_chunk)
-            data = "".join(chunks)
+
+            # Decode the whole body at once: a multi-byte character can be
+            # split between two chunks
+            data = utils.from_bytes(b"".join(chunks))
 
             try:
                 # Decode content
